@@ -2,4 +2,6 @@
 # setup_cmd: offline release build of the simulator against /repo (warms the build cache)
 set -u
 cd "$(dirname "${BASH_SOURCE[0]}")"
-./check build
+./check build || exit 2
+# warm the Miri build used by the C17 check (not fatal if it fails here: the check reports it)
+./miri/run.sh build || true
